@@ -848,6 +848,9 @@ func runM1L(w *bufio.Writer, c Case, cs string, stats map[string]int) {
 			}
 			fmt.Fprintf(w, "# laudit %s\n", info)
 			fmt.Fprintf(w, "%s => %s\n", strings.Join(op, " "), res)
+			// and the legacy key space itself against LegacyStore (the model carries it through
+			// the new library's rollbacks and deletions)
+			fmt.Fprintf(w, "x lraw => %s\n", sys.rawLegacy())
 		default:
 			emit(op, op)
 		}
